@@ -446,11 +446,12 @@ func (c *Ctx) ruleAdjCloneKeepsRejection() {
 func init() {
 	register(&Check{
 		ID: "C15",
-		Expl: "Decides the structural preconditions of 'reset = fresh evaluation': (E1.refresh-exclusion) every full replay records and queues under the peer's exclusive route-refresh lock and the incremental fan-out under the shared one; (E6.single-pipeline) export and import policy are evaluated only in the one pipeline the live path uses; " +
+		Expl: "Decides (E2b.owned-path) that nothing on the import, export or replay paths writes into a route object that a RIB still holds (policy actions and attribute rewriting work on clones), so the Adj-RIB-In a soft reset replays is what was received. Also: Decides the structural preconditions of 'reset = fresh evaluation': (E1.refresh-exclusion) every full replay records and queues under the peer's exclusive route-refresh lock and the incremental fan-out under the shared one; (E6.single-pipeline) export and import policy are evaluated only in the one pipeline the live path uses; " +
 			"(E6.replay-partition) the replay classifies every candidate as accepted or filtered, and soft reset out withdraws exactly the filtered ones that had been sent; (E4.softreset-entry) API directions map to the right operations and soft reset in replays the peer's own Adj-RIB-In through import policy; (E3.adj-clone-rejected) Adj-RIB-In clones keep the rejected mark; plus the bookkeeping lock rows and send/record pairing of C01. Also: (E6.softreset-in-covers-all) soft reset in replays every addressed peer unconditionally; (E6.withdrawals-first) soft reset out hands over withdrawals before advertisements.",
 		Not: "The metamorphic equivalence itself (Loc-RIB and per-peer view equal to a from-scratch run for all policy pairs and concurrent histories), idempotence of a repeated reset, and absence of duplicates are history-level and not decided.",
 		Run: func(c *Ctx) {
 			c.ruleRatchets("C15")
+			c.ruleOwnedPathMutation("E2b.owned-path", 30)
 			c.ruleRefreshExclusion()
 			c.ruleSinglePipeline()
 			c.ruleReplayPartition()
